@@ -53,6 +53,6 @@ def _filter_real(**a):
     r['end'] = S.ref_end(r)
     o = dict(r1only=a['r1only'], r2only=a['r2only'], filterMP=a['filterMP'], minMQ=a['minMQ'], proper_pairs_only=a['ppo'], no_indels=a['no_indels'],
              max_base_edits=(a['mbe'] if a['mbe_set'] else None), no_softclips=a['no_soft'], filterXA=a['filterXA'], dedup=a['dedup'])
-    bl = [(a['bs'], a['bs'] + a['bw'])] if a['bl'] else None
+    bl = [(1000000, 1000001), (a['bs'], a['bs'] + a['bw'])] if a['bl'] else None
     got = CT.read_should_be_counted(S.make_read(pysam_mk, r), S.make_args(o), ({'chr1': bl} if bl else None))
     return bool(got) == S.passes(r, o, bl)
